@@ -329,26 +329,45 @@ def main(argv=None):
     spurious = 0
     replayed = 0
     twin_ok = {}
+    # replay candidates: grouped by signature, in parallel, stopping at the first reproduction per signature
+    groups = {}
     for r in results:
         spec = byname[r["name"]]
         for e in r["errors"]:
             harness_errors.append("%s: %s" % (r["name"], e))
         for d in r["witness_div"]:
             harness_errors.append("%s: symbolic verdict 'proved' but concrete run fails claim %s (%s) inputs=%s" % (r["name"], d["claim"], d["detail"], json.dumps(d["inputs"])))
-        reproduced_here = False
+        if spec.get("twin"):
+            twin_ok[r["name"]] = False
         for cand in r["candidates"]:
-            stol = spec.get("tol", tol)
+            groups.setdefault((r["name"], cand["claim"]), []).append(cand)
+
+    def replay_group(key):
+        name, claim = key
+        spec = byname[name]
+        stol = spec.get("tol", tol)
+        outs = []
+        for cand in groups[key]:
             path = write_replay(prop_id, prop_mod, spec, cand, stol)
             st, txt = run_replay(path)
-            replayed += 1
-            cand["replay"] = st
-            cand["replay_path"] = path
+            outs.append((cand, path, st, txt))
             if st == "reproduced":
-                reproduced_here = True
+                break
+        return key, outs
+
+    from concurrent.futures import ThreadPoolExecutor
+    with ThreadPoolExecutor(max_workers=max(1, args.jobs)) as tp:
+        group_results = list(tp.map(replay_group, sorted(groups)))
+    for (name, claim), outs in group_results:
+        spec = byname[name]
+        for cand, path, st, txt in outs:
+            replayed += 1
+            if st == "reproduced":
                 if spec.get("twin"):
+                    twin_ok[name] = True
                     os.remove(path)
                     continue
-                sig = "%s::%s" % (r["name"], cand["claim"])
+                sig = "%s::%s" % (name, claim)
                 k = match_known(known, prop_id, sig)
                 if k is not None:
                     known_hits.setdefault(k["signature"], (k, sig, path))
@@ -357,11 +376,9 @@ def main(argv=None):
             else:
                 os.remove(path)
                 if st == "error":
-                    harness_errors.append("%s: replay error for %s: %s" % (r["name"], cand["claim"], txt[-400:]))
+                    harness_errors.append("%s: replay error for %s: %s" % (name, claim, txt[-400:]))
                 else:
                     spurious += 1
-        if spec.get("twin"):
-            twin_ok[r["name"]] = reproduced_here
     for name, ok in twin_ok.items():
         if not ok:
             harness_errors.append("twin harness %s (deliberately wrong oracle) was not refuted: the harness cannot detect violations" % name)
@@ -442,6 +459,8 @@ def main(argv=None):
     if harness_errors:
         for e in harness_errors[:20]:
             print("HARNESS-ERROR: " + e, file=sys.stderr)
+        for sig, path, txt in violations[:10]:
+            print("(unreported while harness errors persist) violation candidate %s replay=%s" % (sig, path))
         return EXIT_HARNESS
     if violations:
         for sig, path, txt in violations:
